@@ -12,13 +12,13 @@ from . import common as C
 ALL_WRAPS = '{"none", "set", "tag", "alias", "aliasset"}'
 CONFIGS = {
     "quick": [
-        dict(Mode='"blank"', Wraps='{"none", "set", "alias"}', AVals="{0, 1}", SVals='{"unset", "p", "empty"}', MaxOps=3),
+        dict(Mode='"blank"', Wraps='{"none", "set", "alias"}', AVals="{0, 1, 13}", SVals='{"unset", "p", "empty"}', MaxOps=3),
         dict(Mode='"blank"', Wraps=ALL_WRAPS, AVals="{0, 1, 2}", SVals='{"unset", "empty", "p", "pq"}', MaxOps=2),
         dict(Mode='"direct"', Wraps=ALL_WRAPS, AVals="{0, 1, 2}", SVals='{"unset", "empty", "p", "pq"}', MaxOps=3),
         # overlapping SetSource calls (the Blank's mutex makes them atomic): small value universe, every pair overlapped or not
         dict(Mode='"blank"', Wraps='{"none"}', AVals="{1, 2}", SVals='{"unset"}', MaxOps=3, Overlap="TRUE"),
         # a Blank inside a transforming source (seeded outer mangler list), inner sources plain or wrapped once more
-        dict(Mode='"tblank"', Outer="?", Wraps='{"none", "set"}', AVals="{0, 1}", SVals='{"unset", "p"}', MaxOps=3),
+        dict(Mode='"tblank"', Outer="?", Wraps='{"none", "set"}', AVals="{1, 13}", SVals='{"unset", "p"}', MaxOps=3),
     ],
     "thorough": [
         # sizes measured: 283k / ~730k / ~205k / ~46k histories (every history is emitted by one TLC worker and executed)
@@ -26,7 +26,8 @@ CONFIGS = {
         dict(Mode='"blank"', Wraps='{"none", "set", "alias"}', AVals="{0, 1}", SVals='{"unset", "empty", "pq"}', MaxOps=3),
         dict(Mode='"direct"', Wraps=ALL_WRAPS, AVals="{0, 1}", SVals='{"unset", "empty", "pq"}', MaxOps=4),
         dict(Mode='"blank"', Wraps='{"none"}', AVals="{1, 2}", SVals='{"unset", "p"}', MaxOps=3, Overlap="TRUE"),
-        dict(Mode='"tblank"', Outer='"alias"', Wraps='{"none", "set"}', AVals="{0, 1}", SVals='{"unset", "pq"}', MaxOps=3),
+        dict(Mode='"tblank"', Outer='"alias"', Wraps='{"none", "set"}', AVals="{0, 1, 13}", SVals='{"unset", "pq"}', MaxOps=3),
+        dict(Mode='"blank"', Wraps='{"none", "alias"}', AVals="{1, 13}", SVals='{"unset"}', MaxOps=4),
         dict(Mode='"tblank"', Outer='"set"', Wraps='{"none", "tag"}', AVals="{0, 1}", SVals='{"unset", "empty", "p"}', MaxOps=3),
         dict(Mode='"tblank"', Outer='"tag"', Wraps='{"none", "alias"}', AVals="{0, 1}", SVals='{"unset", "p"}', MaxOps=3),
     ],
@@ -113,14 +114,19 @@ def run_cases(vh, scratch, cases, workers=12, subcmd="wrap"):
 
 
 def blank_context_cases(vh, scratch, seed, quick=True):
-    """C07 on Blank.SetSource: the histories of Wrap.tla in which the monitor is gone or a source misbehaves, executed with the
-    driver's watchdog; returns the mismatches that say 'SetSource did not come back after its context ended'."""
-    consts = dict(Mode='"blank"', Wraps='{"none"}', AVals="{0, 1}", SVals='{"unset", "p"}', MaxOps=3 if quick else 4)
+    """C07 on Blank.SetSource: the Blank histories of Wrap.tla in which a blocking path's return value is put to the test (the
+    monitor is gone, a value is rejected by Verify, the same source object is set again), executed with the driver's watchdog.
+    Returns the mismatches that breach C07: not back after its context ended, nil before the value was visible, nil for a
+    rejected value, view not what the nil promised."""
+    consts = dict(Mode='"blank"', Wraps='{"none"}', AVals="{1, 13}", SVals='{"unset", "p"}', MaxOps=3 if quick else 4)
     cases, res = emit_cases(scratch, 70, consts)
     if not res.ok:
         raise C.Inconclusive("Wrap.tla violates its own properties (%s): specification alarm" % res.violated)
-    # only histories in which some SetSource is issued after the monitor exited are interesting here
-    sel = [c for c in cases if any(h["op"].startswith("set") and not prev["alive"] for prev, h in zip(c["hist"], c["hist"][1:]))]
+    sel = [c for c in cases if any(h["op"] == "setagain" or h["a"] == 13 or (h["op"].startswith("set") and not prev["alive"])
+                                   for prev, h in zip([{"alive": True}] + c["hist"], c["hist"]))]
+    if quick and len(sel) > 6000:
+        import random
+        sel = random.Random(seed).sample(sel, 6000)
     for k, c in enumerate(sel):
         c["id"] = "wc-%d" % k
     results, crashes = run_cases(vh, scratch, sel)
@@ -128,7 +134,7 @@ def blank_context_cases(vh, scratch, seed, quick=True):
     out = []
     for r in results:
         for m in r.get("mismatches") or []:
-            if m["kind"] == "ctx":
+            if m.get("c07"):
                 out.append((m["detail"], byid.get(r["id"])))
     return out, len(sel), res.distinct
 
